@@ -15,6 +15,14 @@
 // ROUTING of the generic source (4x-unrolled body, SIMD tail, scalar tail; which element goes to which
 // accumulator; every element exactly once) and the lane arithmetic of the emulations.
 //
+// STATUS (2026-09-25): only the `multiply_*` instances listed in specs.json are registered.  Findings:
+//  * SAT back-ends (CaDiCaL/kissat/minisat) cannot relate the kernel's arithmetic to the reference (two
+//    copies of every multiplier; no structural hashing in CBMC's CNF) — n = 8 does not finish in 5 min;
+//    `--solver cvc5` (term-level sharing) does: multiply 256b n=23 in ~4 min, axpy 128b n=11 in ~2 min.
+//  * CBMC models `fma` by a C library function that computes the UNFUSED a*b+c and asserts
+//    `feraiseexcept` ("floating-point exception") on inf*0 — every kernel using mul_add therefore shows one
+//    failed *library* check (classified ERROR, not FAILED, by vx/kani.py) and fused-vs-unfused is invisible.
+//
 // Every harness fixes the length n (const generic) and leaves ALL contents symbolic (`kani::any()` for
 // every f64, every bit pattern incl. NaN/inf/subnormals/-0.0).  No `kani::assume`.
 //
@@ -61,7 +69,8 @@ fn any_arr<const N: usize>() -> [f64; N] {
 fn untouched<const N: usize>(a: &[f64; N], b: &[f64; N]) {
     let mut i = 0;
     while i < N {
-        assert!(a[i].to_bits() == b[i].to_bits(), "C17: read-only input untouched");
+        // `same`, not raw bit equality: the harnesses run on the SMT back-end (one NaN value)
+        assert!(same(a[i], b[i]), "C17: read-only input untouched");
         i += 1;
     }
 }
